@@ -68,8 +68,8 @@ def pmap(fn, items, workers=None):
         return list(ex.map(fn, items))
 
 
-def api_dump(binary, fmt, path, params=False):
-    r = subprocess.run([binary, "--format", fmt, "--file", path] + (["--params", "1"] if params else []),
+def api_dump(binary, fmt, path, params=False, preload=None):
+    r = subprocess.run([binary, "--format", fmt, "--file", path] + (["--params", "1"] if params else []) + (["--preload", preload] if preload else []),
                        capture_output=True, text=True, timeout=300, env=RUN_ENV)
     d = dict(P={}, V={}, E={}, X={}, F={}, S={}, W={}, raw=r.stdout, rc=r.returncode, stderr=r.stderr)
     for line in r.stdout.splitlines():
